@@ -333,12 +333,13 @@ class SendCheck:
         mismatch = []
         if mm is not None:
             for r in rows:
-                if r[0] in ('Ref', 'Foreign'): continue
+                if r[0] in ('Ref', 'Foreign', 'Fut', 'MutRef'): continue
                 exp = mm[(f'{r[0]} {r[1]}', r[2], r[3], r[4])]
                 if exp != (r[5], r[6]): mismatch.append((r, exp))
         if bad:
             r = bad[0]
             what = 'is Sync' if r[6] == 1 else ('can be shared by reference across threads' if r[0] == 'Ref' else 'is Send')
+            if r[0] == 'Fut' and r[6] != 1: what = 'is Send (the future of an async operation, which borrows its iterator mutably: polling it on another thread moves the iterator\'s use there)'
             prog = (f'// {r[7]} {what} although ' + ('it belongs to a local buffer' if r[2] == 0 else 'its item type is not Send') + '\n'
                     'use mutringbuf::*; use mutringbuf::iterators::*;\n'
                     f'fn assert_send<T: Send>() {{}}\nfn main() {{ assert_send::<{r[7]}>(); /* compiles: the value can be moved into std::thread::spawn */ }}\n')
